@@ -321,6 +321,7 @@ def h_throttle(f0: bool, f1: bool, f2: bool, d0: int, d1: int, g1: int, g2: int,
     post: _ == True
     """
     vkopf.begin_path()
+    f0, f1, f2 = vkopf.pin('f0', f0), vkopf.pin('f1', f1), vkopf.pin('f2', f2)
     fails = [f0, f1, f2]
     gaps = [0, g1, g2, g3][:vkopf.cell('events', 4)]
     try:
@@ -359,6 +360,77 @@ def h_throttle(f0: bool, f1: bool, f2: bool, d0: int, d1: int, g1: int, g2: int,
     return vkopf.verdict(ok)
 
 
+def run_throttled_unit(fails, d0, d1, gaps, ties=()):
+    """The real throttlers.throttled() driven like queueing.worker does it: events of one object arrive at symbolic
+    gaps, set the stream pressure, and are processed one at a time; the operation fails on the flagged attempts."""
+    loop = SymLoop()
+    attempts = []
+    arrivals = []
+
+    async def main():
+        throttler = throttlers.Throttler()
+        pressure = asyncio.Event()
+        backlog = asyncio.Queue()
+
+        async def producer():
+            for i, g in enumerate(gaps):
+                if g > 0:
+                    await asyncio.sleep(g)
+                arrivals.append(loop.time())
+                pressure.set()
+                await backlog.put(i)
+
+        async def consumer():
+            for _ in range(len(gaps)):
+                ev = await backlog.get()
+                if backlog.empty():
+                    pressure.clear()
+                async with throttlers.throttled(throttler=throttler, delays=[d0, d1], wakeup=pressure,
+                                                logger=logging.getLogger('x')) as should_run:
+                    if should_run:
+                        i = len(attempts)
+                        attempts.append((loop.time(), ev))
+                        if i < len(fails) and fails[i]:
+                            raise RuntimeError('infrastructure error')
+        prod = asyncio.create_task(producer())
+        await consumer()
+        await prod
+    loop.run(main(), ties=ties)
+    return attempts, arrivals
+
+
+def h_throttled_unit(f0: bool, f1: bool, f2: bool, d0: int, d1: int, g1: int, g2: int, g3: int, t0: bool, t1: bool) -> bool:
+    """
+    pre: d0 >= 1 and d1 >= 1 and g1 >= 0 and g2 >= 0 and g3 >= 0
+    post: _ == True
+    """
+    vkopf.begin_path()
+    fails = [f0, f1, f2]
+    try:
+        attempts, arrivals = run_throttled_unit(fails, d0, d1, [0, g1, g2, g3], ties=[t0, t1])
+    except (Deadlock, Diverged, Livelock):
+        return vkopf.verdict(False)
+    ok = True
+    delays = [d0, d1]
+    consecutive = 0
+    for i, (t, ev) in enumerate(attempts):
+        failed = i < len(fails) and fails[i]
+        if failed:
+            d = delays[consecutive] if consecutive < 2 else d1
+            if i + 1 < len(attempts) and attempts[i + 1][0] < t + d:
+                ok = False              # paused for the configured delay: growing per consecutive error ...
+            consecutive += 1
+            vkopf.witness('throttled')
+            if consecutive >= 2:
+                vkopf.witness('grown')
+        else:
+            consecutive = 0             # ... reset by a success (and only by a success)
+    # processing recovers: the last event is eventually handled
+    if not attempts or attempts[-1][1] != 3:
+        ok = False
+    return vkopf.verdict(ok)
+
+
 def obligations():
     obs = []
     ranges = [[0, 1], [2, 399], [400, 402], [403, 403], [404, 428], [429, 429], [430, 499], [500, 599]]
@@ -373,6 +445,9 @@ def obligations():
     obs.append(Ob('h_auth', {'k': 1}, timeout=900, twins=['reauthenticated']))
     obs.append(Ob('h_auth', {'k': 2}, timeout=900))
     obs.append(Ob('h_auth', {'k': 3}, timeout=3400, tiers=('thorough',)))
-    obs.append(Ob('h_throttle', {'events': 3}, timeout=1500, path_timeout=300, twins=['throttled', 'grown']))
-    obs.append(Ob('h_throttle', {'events': 4}, timeout=3400, path_timeout=300, tiers=('thorough',)))
+    obs.append(Ob('h_throttled_unit', {}, timeout=900, twins=['throttled', 'grown']))
+    obs.append(Ob('h_throttle', {'events': 2, 'pin': {'f1': False, 'f2': False}}, tiers=('quick',), timeout=900, path_timeout=300))
+    obs.append(Ob('h_throttle', {'events': 4}, tiers=('thorough',), timeout=600, path_timeout=300, twins=['throttled', 'grown'], main=False))
+    obs += split(Ob('h_throttle', {'events': 4}, timeout=3400, path_timeout=300, tiers=('thorough',)), f0=[False, True], f1=[False, True], f2=[False, True])
+    obs += split(Ob('h_throttle', {'events': 3}, timeout=3400, path_timeout=300, tiers=('thorough',)), f0=[False, True], f1=[False, True])
     return obs
